@@ -889,7 +889,10 @@ func (s *SecureChannel) scheduleRenewal(instance *channelInstance) {
 	// Clients should request a new SecurityToken after 75 % of its lifetime has elapsed. This should ensure that
 	// clients will receive the new SecurityToken before the old one actually expire
 	const renewAfter = 0.75
-	when := time.Second * time.Duration(instance.revisedLifetime.Seconds()*renewAfter)
+	// 75 % of the lifetime with the lifetime's own resolution: rounding the product down
+	// to whole seconds renews tokens with a lifetime below 1.34 s at once, over and over,
+	// and tokens between 2 and 2.67 s before half of their lifetime has passed.
+	when := time.Duration(float64(instance.revisedLifetime) * renewAfter)
 	verifPoint("renew.sched", s, "when", when, "lifetime", instance.revisedLifetime, "tok", instance.securityTokenID)
 
 	debug.Printf("uasc %d: security token is refreshed at %s (%s). channelID=%d tokenID=%d", s.c.ID(), time.Now().UTC().Add(when).Format(time.RFC3339), when, instance.secureChannelID, instance.securityTokenID)
